@@ -141,6 +141,56 @@ def plan_dump(schema, rm, mi, desc, lines, meta, res, cap=24, modes=walk.MODES, 
         res.samples.append({"message": desc, "image": img.hex(), "expected_dump_head": exp.splitlines()[:8]})
 
 
+def plan_c04(schema, rm, mi, desc, lines, meta, res, cap=6, seeds=(0x10,), const_cursor=True):
+    from ..gen import cursorx
+    gs, dl = adaptive_bounds(rm, cap)
+    res.counters["shapes"] = res.counters.get("shapes", 0) + 1
+    for shape in values.size_vectors(rm.level, gs, dl):
+        for seed in seeds:
+            inst = values.fill(rm.level, shape, values.ByteGen(seed))
+            img, placed = codec.encode(schema, rm, inst, fill=0xEE)
+            toks = cursorx.expectation_tokens(rm, placed, inst, schema.big)
+            for kind in (("M", "C") if const_cursor else ("M",)):
+                cid = "x%d" % len(meta)
+                lines.append("%s %s %d %s %s" % (kind, cid, mi, img.hex(), toks))
+                meta[cid] = {"message": rm.name, "desc": desc, "mode": "cursor<%s>" % ("const byte" if kind == "C" else "byte"),
+                             "shape": values.shape_str(shape), "seed": seed, "image": img.hex()}
+            res.distinct.add((desc, values.shape_str(shape)))
+    if len(res.samples) < 2:
+        res.samples.append({"message": desc, "image": img.hex(), "expectations(req+1,after_move,after_stay,after_skip,result,width)": toks[:200]})
+
+
+def choice_strings(maxlen):
+    out = []
+    for n in range(1, maxlen + 1):
+        out += ["".join(t) for t in itertools.product("01234", repeat=n)]
+    return out
+
+
+def plan_traverse(schema, rm, mi, desc, lines, meta, res, cap=4, seeds=(0x10,), maxlen=2):
+    from ..gen import traverse
+    gs, dl = adaptive_bounds(rm, cap)
+    ex = traverse.TraverseExpect(schema, rm)
+    res.counters["shapes"] = res.counters.get("shapes", 0) + 1
+    strings = choice_strings(maxlen)
+    for shape in values.size_vectors(rm.level, gs, dl):
+        for seed in seeds:
+            inst = values.fill(rm.level, shape, values.ByteGen(seed))
+            img, placed = codec.encode(schema, rm, inst, fill=0xEE)
+            for k, cs in enumerate(strings):
+                exp = ex.trace(placed, inst, cs)
+                for style in "01234":
+                    cid = "t%d" % len(meta)
+                    lines.append("D %s %d curw %s %d c %s %s" % (cid, mi, img.hex() if img else "-", exp.count("\n"), cs, style))
+                    lines.append(exp.rstrip("\n"))
+                    meta[cid] = {"message": rm.name, "desc": desc, "mode": "traverse", "shape": values.shape_str(shape),
+                                 "wrappers": cs, "iteration_style": style, "image": img.hex()}
+                    res.counters["calls"] = res.counters.get("calls", 0) + exp.count("^")
+            res.distinct.add((desc, values.shape_str(shape)))
+    if len(res.samples) < 2:
+        res.samples.append({"message": desc, "wrappers": cs, "trace_head": exp.splitlines()[:10]})
+
+
 # ---------------------------------------------------------------- reporting
 
 def fail_kind(detail):
